@@ -25,6 +25,7 @@ type c07Case struct {
 	Constraints  []hx.MConstraint `json:"constraints"` // a root entry "@ROOTIDS@" stands for all layout root ids
 	Flip         string           `json:"flip"`
 	E2E          bool             `json:"e2e"`
+	Bundle        string          `json:"bundle,omitempty"` // the caller's intermediates as one PEM chain file: forward | reverse
 	NoLayoutRoots bool            `json:"no_layout_roots,omitempty"` // the layout lists no root CA at all (the CA sits in the machine's trust store only)
 	RootsForm    string           `json:"roots_form"` // star | empty | nil : root list of EVERY constraint
 	Second       string           `json:"second"` // e2e only: none | accept-before | accept-after (another step that accepts the same certificate by wildcard)
@@ -180,13 +181,13 @@ func c07Gen(t *rapid.T) c07Case {
 		DNS:    val("dns", []string{"a.example", "b.example", "c.example"}, 3),
 		Emails: val("emails", []string{"a@x.org", "b@x.org", "c@x.org"}, 3),
 		Orgs:   val("orgs", []string{"acme", "umbrella", "initech"}, 3),
-		URIs:   val("uris", []string{"spiffe://x.org/a", "spiffe://x.org/b", "https://x.org/c"}, 3)}
+		URIs:   val("uris", []string{"spiffe://x.org/a", "spiffe://x.org/b", "https://x.org/c", "spiffe://x.org/ns%2Fa", "spiffe://x.org/ns%2Fa"}, 3)}
 
 	// constraints: one is satisfied by construction, the others are arbitrary
 	form := func(label string, values []string, alphabet []string, good bool) []string {
 		kinds := []string{"star", "exact", "permuted"}
 		if !good {
-			kinds = []string{"star", "exact", "permuted", "subset", "superset", "disjoint", "empty", "emptystr", "absent"}
+			kinds = []string{"star", "exact", "permuted", "subset", "superset", "disjoint", "empty", "emptystr", "absent", "decoded-twin"}
 		}
 		k := rapid.SampledFrom(kinds).Draw(t, label)
 		switch k {
@@ -228,6 +229,20 @@ func c07Gen(t *rapid.T) c07Case {
 				}
 			}
 			return []string{"*"}
+		case "decoded-twin":
+			// the listed values are the certificate's values with percent-escapes decoded: other identities
+			out := append([]string{}, values...)
+			changed := false
+			for i := range out {
+				if strings.Contains(out[i], "%2F") {
+					out[i] = strings.ReplaceAll(out[i], "%2F", "/")
+					changed = true
+				}
+			}
+			if !changed {
+				return []string{"*"}
+			}
+			return out
 		case "empty":
 			return []string{}
 		case "absent":
@@ -394,6 +409,9 @@ func c07Gen(t *rapid.T) c07Case {
 		}
 	}
 	c.PKI.Certs = append(c.PKI.Certs, leaf)
+	if len(c.CallerInters) >= 2 {
+		c.Bundle = rapid.SampledFrom([]string{"", "forward", "reverse"}).Draw(t, "bundle")
+	}
 	if rapid.IntRange(0, 7).Draw(t, "nolayoutroots") == 0 {
 		c.NoLayoutRoots, c.LayoutRoots = true, nil
 	}
@@ -509,6 +527,10 @@ func c07Run(c c07Case, r *hx.Rec) error {
 	for _, n := range c.CallerInters {
 		callerPems = append(callerPems, []byte(certs[n].PEM))
 	}
+	callerPems = hx.BundlePEMs(callerPems, c.Bundle)
+	if c.Bundle != "" {
+		r.Label("intermediates-in-one-chain-file")
+	}
 	constraints := make([]hx.MConstraint, len(c.Constraints))
 	for i, cc := range c.Constraints {
 		if len(cc.Roots) == 1 && cc.Roots[0] == "@ROOTIDS@" {
@@ -567,7 +589,7 @@ func c07Run(c c07Case, r *hx.Rec) error {
 	}
 	// ---- end to end: a link signed with the leaf's key, certificate attached
 	link := hx.MLink{Type: "link", Name: "build", Materials: hx.MArtifacts{}, Products: hx.ArtifactsOf(map[string]string{"out": "x"}), ByProducts: hx.MObj{}, Command: []string{}, Environment: hx.MObj{}}
-	w := hx.World{Entry: "cwd", PKI: c.PKI, Intermediates: c.CallerInters, Product: []hx.WFile{{Path: "out", Content: "x"}},
+	w := hx.World{Entry: "cwd", PKI: c.PKI, Intermediates: c.CallerInters, BundleIntermediates: c.Bundle, Product: []hx.WFile{{Path: "out", Content: "x"}},
 		Layout:       hx.WMetaFile{Name: "root.layout", Wrapper: c.Wrapper, Meta: hx.MMeta{Layout: &lay}, Sigs: []hx.WSig{{Key: "ed25519-1"}}},
 		VerifierKeys: []hx.WKey{{Key: "ed25519-1"}},
 		Links:        []hx.WMetaFile{{Name: hx.LinkFileName("build", certs[c.Leaf].Key.KeyID), Wrapper: "legacy", Meta: hx.MMeta{Link: &link}, Sigs: []hx.WSig{{Key: "pki:" + c.Leaf, WithCert: true}}}}}
